@@ -138,7 +138,7 @@ func grammarSpaces() []kit.Space {
 			Describe: func(i uint64) any { return map[string]any{"class": f.Cases[i].Class, "files": f.Cases[i].Files} },
 		})
 	}
-	return append(sps, importerSpace())
+	return append(append(sps, importerSpace()), moreSpaces()...)
 }
 
 // ---- Part 1 (c): importers that fail ----
